@@ -350,7 +350,7 @@ def rand_block(rng, depth):
 
 
 def c05_random(tier, rng):
-    n = 600 if tier == "thorough" else 120
+    n = 2500 if tier == "thorough" else 120
     out = []
     while len(out) < n:
         b = rand_block(rng, rng.choice([2, 3, 4]))
